@@ -7,11 +7,11 @@ import itertools
 from .common import *
 from .c12 import drive, ser66
 
-GEN_MODES = ['gen', 'genbad', 'genbadsk', 'genbadcache', 'gennullpub', 'genctr', 'genctrbadkp']
+GEN_MODES = ['gen', 'genbad', 'genbadsk', 'genbadcache', 'gennullpub', 'genctr', 'genctrbadkp', 'genctrzerosec', 'genctrovfsec']
 SIGN_MODES = ['ok', 's2', 'wrongkp', 'negkp', 'zerokp', 'nullout', 'nullkp', 'nullcache', 'nullsession', 'badcache', 'badsession',
               'zeroed', 'badmagic', 'nullnonce']
 FULL = [g + s for g in GEN_MODES for s in '01'] + ['sign%s:%s' % (s, m) for m in SIGN_MODES for s in '01'] + ['copy01', 'copy10']
-CORE = ['gen0', 'gen1', 'genbad0', 'genctr0', 'sign0:ok', 'sign1:ok', 'sign0:s2', 'sign0:wrongkp', 'sign0:negkp', 'sign0:nullout',
+CORE = ['gen0', 'gen1', 'genbad0', 'genctr0', 'genctrzerosec0', 'sign0:ok', 'sign1:ok', 'sign0:s2', 'sign0:wrongkp', 'sign0:negkp', 'sign0:nullout',
         'sign0:badcache', 'sign0:badsession', 'sign0:zeroed', 'copy01', 'copy10']
 
 def sanity(cond, what):
@@ -27,8 +27,8 @@ def abstract(steps):
         elif st.startswith('gen'):
             i = int(st[-1]); m = st[:-1]
             if m in ('gen', 'genctr'): fresh += 1; slots[i] = fresh; ret, ill = 1, 0
-            else: slots[i] = None; ret = 0; ill = 0 if m in ('genbad', 'genbadsk') else 1
-            if m != 'genctr' and m != 'genctrbadkp': wiped = 1 if m in ('gen', 'genbad') else 0
+            else: slots[i] = None; ret = 0; ill = 0 if m in ('genbad', 'genbadsk', 'genctrzerosec', 'genctrovfsec') else 1
+            if not m.startswith('genctr'): wiped = 1 if m in ('gen', 'genbad') else 0
         else:
             i = int(st[4]); m = st[6:]
             if m == 'nullnonce': ret, ill = 0, 1
